@@ -209,6 +209,10 @@ class TFLiteSemantic:
         # Exp specific checks
         self.specific_constraints[Op.Exp].append(TFLiteSemantic.constraint_input_signed)
 
+        # Log, Sqrt and Gelu specific checks (their tables are only generated for int8 and int16)
+        for op_type in (Op.Log, Op.Sqrt, Op.Gelu):
+            self.specific_constraints[op_type].append(TFLiteSemantic.constraint_input_signed)
+
         # Transpose specific checks
         self.specific_constraints[Op.Transpose].append(TFLiteSemantic.constraint_transpose_permutation_size)
         self.specific_constraints[Op.Transpose].append(TFLiteSemantic.constraint_transpose_permutation_values)
